@@ -48,7 +48,7 @@ Eth(li, t, d)  == Mk("eth", li, [type |-> t], d)
 Vlan(li, t, d) == Mk("vlan", li, [type |-> t], d)
 Arp(li, d)     == Mk("arp", li, [hwtype |-> 1, prototype |-> 2048, hwlen |-> 6, protolen |-> 4], d)
 Ip4(li, proto, opts, frag, d) ==
-  Mk("ipv4", li, [v |-> 4, hl |-> 5 + Len(opts) \div 4, frag |-> frag, protocol |-> proto], d) @@ [opts |-> opts]
+  Mk("ipv4", li, [v |-> 4, hl |-> 5 + Len(opts) \div 4, frag |-> frag, protocol |-> proto, mf |-> 0], d) @@ [opts |-> opts]
 Udp(li, d)     == Mk("udp", li, NoFix, d)
 UdpTo(li, sp, dp, d) == Mk("udp", li, [srcport |-> sp, dstport |-> dp], d)
 Tcp(li, opts, d) == Mk("tcp", li, NoFix, d) @@ [opts |-> opts]
@@ -125,9 +125,149 @@ Exts(var, up) ==
     [] OTHER -> <<>>
 FirstNh(es, up) == IF es = <<>> THEN up ELSE es[1].t
 
+
+\* ---- the long tail: GRE, VXLAN, IGMP, RIP, EAPOL/EAP, DHCP, ICMPv6 / neighbour discovery
+Gre(li, c, k, sq, t, d) ==
+  [p |-> "gre", c |-> c, k |-> k, sq |-> sq, recur |-> VU(d, li, 1, 3), ver |-> 0, type |-> t,
+   csum |-> 0, offset |-> 0,
+   key |-> IF k = 1 THEN VB(d, li, 2, 4) ELSE <<>>, seq |-> IF sq = 1 THEN VB(d, li, 3, 4) ELSE <<>>]
+GreFlags(var) == CASE var = 1 -> <<0, 1, 0>> [] var = 2 -> <<0, 0, 1>> [] var = 3 -> <<0, 1, 1>>
+                   [] var = 4 -> <<1, 0, 0>> [] var = 5 -> <<1, 1, 1>> [] OTHER -> <<0, 0, 0>>
+Vxlan(li, iflag, d) == Mk("vxlan", li, [flags |-> 8 * iflag, rsv1 |-> 0, rsv2 |-> 0,
+                                        vni |-> IF iflag = 1 THEN VU(d, li, 3, 24) ELSE 0], d)
+Igmp(li, vt, d) == Mk("igmp", li, [vtype |-> vt], d)
+Rec(d, li, i, t, ns, naux) ==
+  [t |-> t, group |-> VB(d, li, 10 * i, 4), srcs |-> [j \in 1..ns |-> VB(d, li, 10 * i + j, 4)],
+   aux |-> Pattern(4 * naux, i, 3)]
+Igmp3(li, var, d) ==
+  [p |-> "igmp3", csum |-> 0,
+   recs |-> CASE var = 1 -> <<Rec(d, li, 1, 1, 2, 1)>>
+              [] var = 2 -> <<Rec(d, li, 1, 4, 0, 0), Rec(d, li, 2, 3, 1, 0), Rec(d, li, 3, 6, 3, 2)>>
+              [] OTHER -> <<Rec(d, li, 1, 2, 0, 0)>>]
+RipEntry(li, i, d) ==
+  [nm \in Names(LRipE) |->
+     LET j == CHOOSE x \in 1..Len(LRipE) : LRipE[x].n = nm IN Val(Cls(d, li, 3 + j), LRipE[j], li * 16 + i * 7 + j)]
+Rip(li, n, d) == Mk("rip", li, [zero |-> 0], d) @@ [entries |-> [i \in 1..n |-> RipEntry(li, i, d)]]
+Eapol(li, t, d) == Mk("eapol", li, [type |-> t], d)
+Eap(li, c, d) == Mk("eap", li, [code |-> c], d)
+DO(k, dd) == [k |-> k, d |-> dd]
+DhcpOpts(var, d, li) ==
+  CASE var = 1 -> <<DO(53, <<1>>), DO(55, <<1, 3, 6, 15>>), DO(61, <<1>> \o VB(d, li, 20, 6))>>     \* discover
+    [] var = 2 -> <<DO(53, <<2>>), DO(1, <<255, 255, 255, 0>>), DO(3, VB(d, li, 21, 4)),
+                    DO(6, VB(d, li, 22, 4) \o VB(d, li, 23, 4)), DO(51, VB(d, li, 24, 4)), DO(54, VB(d, li, 25, 4)),
+                    DO(12, Ascii(5, 1)), DO(15, Ascii(11, 2))>>                                      \* offer
+    [] var = 3 -> <<DO(53, <<5>>), DO(43, Pattern(255, 1, 1)), DO(224, <<>>)>>                         \* longest option, empty option
+    [] OTHER -> <<>>
+Dhcp(li, hlen, var, d) ==
+  LET L == Mk("dhcp", li, [hlen |-> hlen, magic |-> <<99, 130, 83, 99>>], d)
+  IN [L EXCEPT !.chaddr = IF hlen = 6 THEN SubSeq(L.chaddr, 1, 6) \o Zeros(10) ELSE L.chaddr]
+     @@ [opts |-> DhcpOpts(var, d, li)]
+\* ---- DNS
+Str(n, s) == [j \in 1..n |-> 97 + ((s + 5 * j) % 26)]
+Nm(seed, tld) == <<Str(3, seed), Str(7, seed + 1), tld>>            \* e.g. www.example.com
+Q(nm, t) == [name |-> nm, qtype |-> t, qclass |-> 1]
+RR(nm, t, ttl, rd) == [name |-> nm, type |-> t, class |-> 1, ttl |-> ttl, rd |-> rd]
+RawD(dd) == [k |-> "raw", d |-> dd]
+NameD(nm) == [k |-> "name", d |-> nm]
+Dns(li, var, d) ==
+  LET com == <<99, 111, 109>>  net == <<110, 101, 116>>  org == <<111, 114, 103>>
+      www == Nm(1, com)
+      nsn == Nm(9, net)
+      ttl == VB(d, li, 20, 4)
+      big == <<Str(63, 3), org>>                                 \* the longest label
+      base == Mk("dns", li, NoFix, d)
+      body == CASE var = 1 -> [qs |-> <<Q(www, 1)>>, ans |-> <<>>, auth |-> <<>>, add |-> <<>>]
+                [] var = 2 -> [qs |-> <<Q(www, 1)>>,
+                               ans |-> <<RR(www, 1, ttl, RawD(VB(d, li, 21, 4))), RR(www, 28, ttl, RawD(VB(d, li, 22, 16)))>>,
+                               auth |-> <<RR(www, 2, ttl, NameD(nsn))>>,
+                               add |-> <<RR(nsn, 1, ttl, RawD(VB(d, li, 23, 4)))>>]
+                [] var = 3 -> [qs |-> <<Q(big, 16)>>,
+                               ans |-> <<RR(big, 16, ttl, RawD(Pattern(1100, 1, 3))), RR(Nm(4, net), 5, ttl, NameD(www)),
+                                         RR(www, 12, ttl, NameD(Nm(4, net)))>>,
+                               auth |-> <<>>, add |-> <<>>]                   \* pointers beyond offset 1023
+                [] var = 4 -> [qs |-> <<Q(www, 255), Q(nsn, 1)>>, ans |-> <<>>, auth |-> <<>>,
+                               add |-> <<RR(www, 41, ttl, RawD(<<>>))>>]        \* two questions, empty rdata
+                [] OTHER -> [qs |-> <<>>, ans |-> <<>>, auth |-> <<>>, add |-> <<>>]
+  IN base @@ body @@ [cmp |-> 0]
+NO(t, dd) == [t |-> t, d |-> dd]
+NdOpts(var, d, li) ==
+  CASE var = 1 -> <<NO(1, VB(d, li, 10, 6))>>                                      \* source link-layer address
+    [] var = 2 -> <<NO(2, VB(d, li, 10, 6))>>                                      \* target link-layer address
+    [] var = 3 -> <<NO(1, VB(d, li, 10, 6)), NO(5, <<0, 0>> \o VB(d, li, 11, 4)),
+                    NO(3, <<VU(d, li, 12, 7), 192>> \o VB(d, li, 13, 4) \o VB(d, li, 14, 4) \o Zeros(4) \o VB(d, li, 15, 16))>>
+    [] var = 4 -> <<NO(14, VB(d, li, 10, 6)), NO(200, Pattern(14, 1, 1))>>           \* options the library does not know
+    [] OTHER -> <<>>
+Nd(p, li, var, d) ==
+  Mk(p, li, [rsv |-> IF p = "na" THEN 0 ELSE <<0, 0, 0, 0>>, rsv5 |-> 0, rsv6 |-> 0], d) @@ [opts |-> NdOpts(var, d, li)]
+IpUdp(d, sp, dp) == <<Eth(1, 2048, d), Ip4(2, 17, <<>>, 0, d), UdpTo(3, sp, dp, d)>>
+
+\* A UDP / TCP segment whose checksum computes to zero: the last 16-bit word of
+\* an (even-sized) payload is chosen as the checksum of the segment with that
+\* word zero, which makes the whole sum "minus zero".  RFC 768: UDP transmits
+\* an all-zero checksum as all ones; TCP (RFC 793) transmits it as it is.
+ZeroSum(base, n, a, b) ==
+  LET z == base \o <<[p |-> "rawb", data |-> Pattern(n, a, b) \o <<0, 0>>]>>
+      c == FillStack(z)[Len(base)].csum
+      w == IF c = 65535 /\ base[Len(base)].p = "udp" THEN 0 ELSE c
+  IN base \o <<[p |-> "rawb", data |-> Pattern(n, a, b) \o U16(w)]>>
+
+\* An ICMP echo whose one's complement sum needs two end-around carries: the
+\* last word makes the low half of the 32-bit sum 0xffff while the high half is
+\* not zero (RFC 1071 4.1: fold until no carry remains).  swap = 1: the same for
+\* an implementation that adds the words in little-endian order and swaps the
+\* result (RFC 1071 2.B), whose carries fall differently.
+CarryData(icmpL, echoL, n, swap) ==
+  LET base == Pattern(n, 7, 13)
+      reg0 == Hdr([icmpL EXCEPT !.csum = 0]) \o Hdr(echoL) \o base \o <<0, 0>>
+      reg  == IF swap = 1 THEN [i \in 1..Len(reg0) |-> IF i % 2 = 1 THEN reg0[i + 1] ELSE reg0[i - 1]] ELSE reg0
+      lo0  == SumW(reg, 1, Len(reg) \div 2) % 65536
+      w    == U16(65535 - lo0)
+  IN base \o (IF swap = 1 THEN <<w[2], w[1]>> ELSE w)
+
+TailStack(d) ==
+  LET r == Raw(d)
+      g == GreFlags(d.var % 8)
+  IN
+  CASE d.fam = "icmpcarry" -> <<Eth(1, 2048, d), Ip4(2, 1, <<>>, 0, d), Icmp(3, 8, d), Mk("echo", 4, NoFix, d),
+                                [p |-> "rawb", data |-> CarryData(Icmp(3, 8, d), Mk("echo", 4, NoFix, d), d.n, d.var % 2)]>>
+    [] d.fam = "udpzero" -> ZeroSum(<<Eth(1, 2048, d), Ip4(2, 17, <<>>, 0, d), Udp(3, d)>>, d.n, 7, 13)
+    [] d.fam = "tcpzero" -> ZeroSum(<<Eth(1, 2048, d), Ip4(2, 6, <<>>, 0, d), Tcp(3, TcpOpts(d.var, d, 3), d)>>, d.n, 7, 13)
+    [] d.fam = "udp6zero" -> ZeroSum(<<Eth(1, 34525, d), Ip6(2, 17, <<>>, d), Udp(3, d)>>, d.n, 7, 13)
+    [] d.fam = "greip"  -> <<Eth(1, 2048, d), Ip4(2, 47, <<>>, 0, d), Gre(3, g[1], g[2], g[3], 2048, d),
+                             Ip4(4, 17, <<>>, 0, d), Udp(5, d)>> \o r
+    [] d.fam = "greteb" -> <<Eth(1, 2048, d), Ip4(2, 47, <<>>, 0, d), Gre(3, g[1], g[2], g[3], 25944, d),
+                             Eth(4, 34997, d)>> \o r
+    [] d.fam = "grex"   -> <<Eth(1, 2048, d), Ip4(2, 47, <<>>, 0, d), Gre(3, g[1], g[2], g[3], 34997, d)>> \o r
+    [] d.fam = "vxlan"  -> IpUdp(d, VU(d, 3, 1, 16), 4789) \o <<Vxlan(4, 1 - (d.var % 2), d), Eth(5, 34997, d)>> \o r
+    [] d.fam = "vxlanip" -> IpUdp(d, 4789, 4789) \o <<Vxlan(4, 1, d), Eth(5, 2048, d), Ip4(6, 17, <<>>, 0, d), Udp(7, d)>> \o r
+    [] d.fam = "igmp"   -> <<Eth(1, 2048, d), Ip4(2, 2, IpOpts(4), 0, d),
+                             Igmp(3, CASE d.var = 1 -> 18 [] d.var = 2 -> 22 [] d.var = 3 -> 23 [] OTHER -> 17, d)>> \o r
+    [] d.fam = "igmp3"  -> <<Eth(1, 2048, d), Ip4(2, 2, <<>>, 0, d), Igmp3(3, d.var, d)>> \o r
+    [] d.fam = "rip"    -> IpUdp(d, 520, 520) \o <<Rip(4, d.var, d)>>
+    [] d.fam = "eapol"  -> <<Eth(1, 34958, d), Eapol(2, 1 + (d.var % 2), d)>>                   \* start / logoff: no body
+    [] d.fam = "eapolkey" -> <<Eth(1, 34958, d), Eapol(2, 3 + (d.var % 2), d)>> \o r             \* key / ASF alert: opaque body
+    [] d.fam = "eap"    -> <<Eth(1, 34958, d), Eapol(2, 0, d), Eap(3, 1 + (d.var % 2), d)>> \o r  \* request / response: type + data
+    [] d.fam = "eapend" -> <<Eth(1, 34958, d), Eapol(2, 0, d), Eap(3, 3 + (d.var % 2), d)>>       \* success / failure
+    [] d.fam = "dns"    -> IpUdp(d, VU(d, 3, 1, 16), 53) \o <<Dns(4, d.var, d)>>
+    [] d.fam = "dnsr"   -> IpUdp(d, 53, VU(d, 3, 2, 16)) \o <<Dns(4, d.var, d)>>
+    [] d.fam = "mdns"   -> IpUdp(d, 5353, 5353) \o <<Dns(4, d.var, d)>>
+    [] d.fam = "dhcp"   -> IpUdp(d, 68, 67) \o <<Dhcp(4, 6, d.var, d)>>
+    [] d.fam = "dhcpr"  -> IpUdp(d, 67, 68) \o <<Dhcp(4, 16, d.var, d)>>
+    [] d.fam = "ns"     -> <<Eth(1, 34525, d), Ip6(2, 58, <<>>, d), Icmp6(3, 135, d), Nd("ns", 4, d.var, d)>>
+    [] d.fam = "na"     -> <<Eth(1, 34525, d), Ip6(2, 58, <<>>, d), Icmp6(3, 136, d), Nd("na", 4, d.var, d)>>
+    [] d.fam = "rs"     -> <<Eth(1, 34525, d), Ip6(2, 58, <<>>, d), Icmp6(3, 133, d), Nd("rs", 4, d.var, d)>>
+    [] d.fam = "ra"     -> <<Eth(1, 34525, d), Ip6(2, 58, <<>>, d), Icmp6(3, 134, d), Nd("ra", 4, d.var, d)>>
+    [] d.fam = "unreach6" -> <<Eth(1, 34525, d), Ip6(2, 58, <<>>, d), Icmp6(3, 1, d), Mk("unreach6", 4, NoFix, d),
+                               Ip6(5, 17, <<>>, d), Udp(6, d)>> \o r
+    [] d.fam = "toobig" -> <<Eth(1, 34525, d), Ip6(2, 58, <<>>, d), Icmp6(3, 2, d), Mk("toobig", 4, NoFix, d)>> \o r
+    [] d.fam = "timex6" -> <<Eth(1, 34525, d), Ip6(2, 58, <<>>, d), Icmp6(3, 3, d), Mk("timex6", 4, [unused4 |-> <<0, 0, 0, 0>>], d)>> \o r
+TailFams == {"dns", "dnsr", "mdns", "icmpcarry", "udpzero", "tcpzero", "udp6zero", "greip", "greteb", "grex", "vxlan", "vxlanip", "igmp", "igmp3", "rip", "eapol", "eapolkey", "eap", "eapend",
+             "dhcp", "dhcpr", "ns", "na", "rs", "ra", "unreach6", "toobig", "timex6"}
+
 Stack(d) ==
   LET r == Raw(d) IN
-  CASE d.fam = "eth"    -> <<Eth(1, 34997, d)>> \o r                                   \* 0x88b5
+  CASE d.fam \in TailFams -> TailStack(d)
+    [] d.fam = "eth"    -> <<Eth(1, 34997, d)>> \o r                                   \* 0x88b5
     [] d.fam = "vlan"   -> <<Eth(1, 33024, d), Vlan(2, 34997, d)>> \o r
     [] d.fam = "qinq"   -> <<Eth(1, 33024, d), Vlan(2, 33024, d), Vlan(3, 34997, d)>> \o r
     [] d.fam = "llc"    -> <<Eth(1, 3 + d.n, d), Llc(2, "u", d)>> \o r
@@ -141,7 +281,8 @@ Stack(d) ==
     [] d.fam = "rarp"   -> <<Eth(1, 32821, d), Arp(2, d)>> \o r
     [] d.fam = "varp"   -> <<Eth(1, 33024, d), Vlan(2, 2054, d), Arp(3, d)>> \o r
     [] d.fam = "ip"     -> <<Eth(1, 2048, d), Ip4(2, 253, IpOpts(d.var), 0, d)>> \o r
-    [] d.fam = "ipfrag" -> <<Eth(1, 2048, d), Ip4(2, 17, <<>>, 1 + 184 * (d.var % 45), d)>> \o r
+    [] d.fam = "ipfrag" -> <<Eth(1, 2048, d), [Ip4(2, 17, <<>>, 1 + 184 * (d.var % 45), d) EXCEPT !.mf = d.var % 2]>> \o r
+    [] d.fam = "ipmf"   -> <<Eth(1, 2048, d), [Ip4(2, 253, <<>>, 0, d) EXCEPT !.mf = 1]>> \o r       \* a first fragment
     [] d.fam = "udp"    -> <<Eth(1, 2048, d), Ip4(2, 17, IpOpts(d.var), 0, d), Udp(3, d)>> \o r
     [] d.fam = "vudp"   -> <<Eth(1, 33024, d), Vlan(2, 2048, d), Ip4(3, 17, <<>>, 0, d), Udp(4, d)>> \o r
     [] d.fam = "tcp"    -> <<Eth(1, 2048, d), Ip4(2, 6, <<>>, 0, d), Tcp(3, TcpOpts(d.var, d, 3), d)>> \o r
@@ -172,7 +313,7 @@ FamLayers(fam) ==
     [] fam \in {"llc", "llci", "llcs", "snap", "snapoui"} -> <<"eth">>
     [] fam = "snapip" -> <<"eth", "-", "ipv4", "udp">>
     [] fam \in {"arp", "rarp"} -> <<"eth", "arp">> [] fam = "varp" -> <<"eth", "vlan", "arp">>
-    [] fam \in {"ip", "ipfrag"} -> <<"eth", "ipv4">>
+    [] fam \in {"ip", "ipfrag", "ipmf"} -> <<"eth", "ipv4">>
     [] fam = "udp" -> <<"eth", "ipv4", "udp">> [] fam = "vudp" -> <<"eth", "vlan", "ipv4", "udp">>
     [] fam \in {"tcp", "tcpipopt"} -> <<"eth", "ipv4", "tcp">>
     [] fam = "echo" -> <<"eth", "ipv4", "icmp", "echo">> [] fam = "icmpx" -> <<"eth", "ipv4", "icmp">>
@@ -184,6 +325,15 @@ FamLayers(fam) ==
     [] fam \in {"ip6", "ip6none"} -> <<"eth", "ipv6">>
     [] fam = "udp6" -> <<"eth", "ipv6", "udp">> [] fam = "tcp6" -> <<"eth", "ipv6", "tcp">>
     [] fam = "echo6" -> <<"eth", "ipv6", "icmp6", "echo6">> [] fam = "icmp6x" -> <<"eth", "ipv6", "icmp6">>
+    [] fam = "vxlan" -> <<"eth", "ipv4", "udp", "vxlan", "eth">>
+    [] fam = "igmp" -> <<"eth", "ipv4", "igmp">>
+    [] fam = "rip" -> <<"eth", "ipv4", "udp", "rip">>
+    [] fam = "eap" -> <<"eth", "eapol", "eap">>
+    [] fam = "dhcp" -> <<"eth", "ipv4", "udp", "dhcp">>
+    [] fam = "dns" -> <<"eth", "ipv4", "udp", "dns">>
+    [] fam \in {"ns", "na", "rs", "ra"} -> <<"eth", "ipv6", "icmp6", fam>>
+    [] fam = "toobig" -> <<"eth", "ipv6", "icmp6", "toobig">>
+    [] OTHER -> <<"eth">>
 Devs(fam) ==
   LET fl == FamLayers(fam)
   IN {x \in UNION {{<<li, fi>> : fi \in 1..(IF fl[li] = "-" THEN 0 ELSE Len(Layouts[fl[li]]))} : li \in 1..Len(fl)} :
